@@ -624,3 +624,131 @@ def check_no_width_narrowing_in_conversions(ctx, res, config="all"):
     if n < 85:
         res.fail(Finding("R2-anchor-lost", "conversions", "only %d conversion impls found (floor 85)" % n, file="src/biguint/convert.rs", line=0))
     res.clause("C08: no From/TryFrom/FromPrimitive/ToBig* impl casts its primitive input to a narrower integer type (one reviewed digit-splitting loop excepted)")
+
+
+# ------------------------------------------------------------------------------------------
+# digit counts / indices are never truncated
+
+COUNT_CALLS = ("len", "position", "rposition", "count", "capacity", "bits", "trailing_zeros", "trailing_ones")
+COUNT_SELF_HINT = ("slice", "Vec", "Iter", "BigUint", "BigInt", "[")
+
+
+def _count_source(b, op, depth=0, seen=None):
+    """Is this operand an (unbounded) digit count / index?  Follows only value-preserving steps (moves, lossless casts,
+    Option payload projections, + - *) back to a slice length, an iterator position or a big-number bit count.  Any
+    bounding step (%, &, >>, /, min, a comparison on the value) ends the walk with 'no'."""
+    if seen is None:
+        seen = set()
+    if op["k"] == "const" or depth > 25:
+        return None
+    pl = op["place"]
+    l = pl["local"]
+    if (l, len(pl["proj"])) in seen:
+        return None
+    seen.add((l, len(pl["proj"])))
+    if b.is_param(l):
+        return None
+    ds = b.defs().get(l, [])
+    if b.partial_defs().get(l) or len(ds) != 1:
+        return None
+    d = ds[0]
+    if d[0] == "call":
+        t = d[2]
+        nm = core.callee_name(t) or ""
+        ce = core.callee(t) or ""
+        if nm in COUNT_CALLS:
+            # primitive trailing_zeros/count (u64::trailing_zeros) is bounded by the width: only big-number / slice forms count
+            if nm in ("trailing_zeros", "trailing_ones", "bits", "count"):
+                if not ("BigUint" in ce or "BigInt" in ce or "biguint" in ce or "bigint" in ce) or "<u" in ce or "<i" in ce:
+                    return None
+            return "%s()" % nm
+        if nm in ("unwrap", "unwrap_or", "unwrap_or_default", "expect") and t["args"]:
+            return _count_source(b, t["args"][0], depth + 1, seen)
+        return None
+    if d[0] != "assign":
+        return None
+    rv = d[3]["rv"]
+    k = rv["k"]
+    if k == "ptrmeta" or (k == "unop" and rv.get("op") == "PtrMetadata"):
+        return "len()"
+    if k == "use":
+        return _count_source(b, rv["op"], depth + 1, seen)
+    if k == "cast":
+        if rv["ck"] == "IntToInt" and lossless_cast(rv["from"], rv["to"]):
+            return _count_source(b, rv["op"], depth + 1, seen)
+        return None
+    if k == "binop" and rv["op"] in ("Add", "Sub", "Mul", "AddWithOverflow", "SubWithOverflow", "MulWithOverflow", "AddUnchecked", "SubUnchecked", "MulUnchecked"):
+        return _count_source(b, rv["a"], depth + 1, seen) or _count_source(b, rv["b"], depth + 1, seen)
+    return None
+
+
+def _copy_root(b, l, depth=0):
+    """follow single-definition plain copies back to the variable they copy"""
+    while depth < 20 and not b.is_param(l):
+        ds = b.defs().get(l, [])
+        if len(ds) != 1 or ds[0][0] != "assign" or b.partial_defs().get(l):
+            break
+        rv = ds[0][3]["rv"]
+        if rv["k"] == "use" and rv["op"]["k"] != "const" and not rv["op"]["place"]["proj"]:
+            l = rv["op"]["place"]["local"]
+            depth += 1
+        else:
+            break
+    return l
+
+
+def _compared_locals(b):
+    """variables (copy roots) that some comparison in the body looks at: a cast of such a value may be range-checked"""
+    out = set()
+    for bi, si, s in b.stmts():
+        rv = s.get("rv")
+        if rv and rv["k"] == "binop" and rv["op"] in ("Lt", "Le", "Gt", "Ge", "Eq", "Ne"):
+            for o, other in ((rv["a"], rv["b"]), (rv["b"], rv["a"])):
+                # a comparison against another unbounded count (a bounds check `i < len`) bounds nothing
+                if o["k"] != "const" and not (other["k"] != "const" and _count_source(b, other)):
+                    out.add(_copy_root(b, o["place"]["local"]))
+    for bi, t in b.terms():
+        if t["k"] == "call" and (core.callee_name(t) or "") in ("lt", "le", "gt", "ge", "eq", "ne", "cmp", "partial_cmp", "min", "max"):
+            for o in t["args"]:
+                if o["k"] != "const":
+                    out.add(_copy_root(b, o["place"]["local"]))
+    return out
+
+
+def check_no_count_narrowing(files=None, floor=0):
+    def run(ctx, res, config="all"):
+        facts = ctx.facts(config)
+        nb = ncast = 0
+        for b in facts.bodies:
+            f = b.file or ""
+            if files and not any(f.endswith(x) for x in files):
+                continue
+            nb += 1
+            cmp_l = None
+            for bi, si, s in b.stmts():
+                rv = s.get("rv")
+                if not (rv and rv["k"] == "cast" and rv["ck"] == "IntToInt"):
+                    continue
+                a, c = int_info(rv["from"]), int_info(rv["to"])
+                if not a or not c or c[1] >= a[1] or rv["op"]["k"] == "const":
+                    continue
+                ncast += 1
+                src = _count_source(b, rv["op"])
+                if not src:
+                    continue
+                if cmp_l is None:
+                    cmp_l = _compared_locals(b)
+                if _copy_root(b, rv["op"]["place"]["local"]) in cmp_l:
+                    continue  # possibly range-checked: not decided
+                res.fail(Finding("R2-count-narrowed", "%s|%s->%s" % (b.path, rv["from"], rv["to"]),
+                                 "a digit count / index (%s) is truncated %s -> %s by an `as` cast (line %s): operands with more than 2^%d digits or bits silently use a wrong count" % (src, rv["from"], rv["to"], s["span"]["line"], c[1]), b, s["span"]["line"]))
+            res.ok("R2-count-narrowed", b.path, None, nontrivial=False)
+        res.distinct.add("R2-count-narrowed:all")
+        res.count("bodies scanned for truncated counts", nb)
+        res.count("narrowing integer casts inspected", ncast)
+        if nb < floor:
+            res.fail(Finding("R2-anchor-lost", "count-narrowing", "only %d bodies in %s (floor %d)" % (nb, files, floor), file="src", line=0))
+        res.clause("R2: no slice length, iterator position or big-number bit count is truncated by a narrowing `as` cast (value-preserving def chain; any bounding step or comparison on the value ends the walk)")
+
+    run.__name__ = "r2_no_count_narrowing_" + "_".join(x.split("/")[-1].replace(".rs", "") for x in (files or ["all"]))
+    return run
